@@ -873,6 +873,15 @@ def m_eq(px, st, fr, ev):
         return val(st.cons.lookup(mk_binop("Eq", x, y)))
     if x[0] in ("str", "bytes") and y[0] in ("str", "bytes"):
         return val(const(int(x[1] == y[1])))
+    if is_agg(x) and is_agg(y) and x[2] == y[2] == "std::option::Option":
+        # Option<T>: PartialEq is structural (std)
+        if x[3] != y[3]:
+            return val(const(0))
+        if x[3] == "None":
+            return val(const(1))
+        px_, py_ = agg_get(x, "0"), agg_get(y, "0")
+        if TY.get(px_) is not None or TY.get(py_) is not None or is_const(px_) or is_const(py_):
+            return val(st.cons.lookup(mk_binop("Eq", px_, py_)))
     for u, lit in ((x, y), (y, x)):
         if isinstance(lit, tuple) and lit[0] in ("str", "bytes") and lit[1] == "" and isinstance(u, tuple):
             # s == "" is s.is_empty()
@@ -1073,10 +1082,33 @@ def m_index(px, st, fr, ev):
         sl = ("slice", seq, s, e)
         if kind == "full":
             sl = seq
+        elif isinstance(seq, tuple) and seq and seq[0] == "slice" and len(seq) == 4:
+            # a sub-slice of a sub-slice is a sub-slice of the base: x[a..b][s..e] = x[a+s .. a+e] (or ..b)
+            base, a0, b0 = seq[1], seq[2], seq[3]
+            sl = ("slice", base, add_terms(a0, s), add_terms(a0, e) if e is not None else b0)
         return val(("slice_of", sl))
     ev["index"].update({"at": idx})
     mut = "index_mut" in ev["callee"]["path"]
     return val(("ref", ("H", ("elem", seq, idx)), (), mut))
+
+
+@model("core::slice::<impl [T]>::get", reason="get(i): Some(&s[i]) iff i < len(s) (integer index)")
+def m_slice_get(px, st, fr, ev):
+    seq = seq_of(px, st, ev["args"][0])
+    idx = ev["args"][1]
+    if is_agg(idx) or not (is_const(idx) or TY.get(idx) is not None or (isinstance(idx, tuple) and idx[0] in ("binop", "loopvar", "field", "payload"))):
+        return None
+    if isinstance(seq, tuple) and seq and seq[0] == "slice" and len(seq) == 4:
+        # element i of x[a..] is element a+i of x
+        seq, idx = seq[1], add_terms(seq[2], idx)
+    lt = st.cons.lookup(mk_binop("Lt", idx, len_term(seq)))
+    r = ("ref", ("H", ("elem", seq, idx)), (), False)
+    if is_const(lt):
+        return val(some(r) if lt[1] else NONE)
+    return [
+        {"label": "in-bounds", "value": some(r), "assume": (lambda c: c.set_known(lt, 1))},
+        {"label": "out-of-bounds", "value": NONE, "assume": (lambda c: c.set_known(lt, 0))},
+    ]
 
 
 @model("core::slice::<impl [T]>::split_at", reason="split_at(mid): (s[..mid], s[mid..]); panics if mid > len (census obligation)")
